@@ -305,8 +305,15 @@ def search_target(word, kind):
     if kind == "rec":
         return SeqRecord(Seq(word), id="x", features=fts, letter_annotations=la)
     if kind == "circrec":
+        if len(word) % 4 == 2:
+            # a laboratory's own record type: still a circular record
+            return _LabRecord(Seq(word), id="x", features=fts, letter_annotations=la)
         return CircularRecord(Seq(word), id="x", features=fts, letter_annotations=la)
     raise ValueError(kind)
+
+
+class _LabRecord(CircularRecord):
+    """a user-defined subclass of CircularRecord (no behaviour of its own)"""
 
 
 def str_code(s):
@@ -444,12 +451,24 @@ def run(op):
     raise ValueError(k)
 
 
-def build_entities(v, mods):
+def build_entities(v, mods, share=False):
+    """`share`: inputs holding the same plasmid (same name, same text) are wrappers around one and the same record
+    object — one file loaded once and typed several times"""
     objs = {}
     recs = {}
+    pool = {}
     def get(e):
         if e.oid not in objs:
-            rec = mk_record(e.crec, topo=e.topo)
+            key = (e.crec.rid, e.crec.seq, e.topo)
+            rec = pool.get(key) if share else None
+            if rec is None:
+                rec = mk_record(e.crec, topo=e.topo)
+                pool[key] = rec
+            else:
+                cls = faulty_subclass(e.cls) if e.faulty else e.cls
+                objs[e.oid] = cls(rec)
+                recs[e.oid] = rec
+                return objs[e.oid]
             if len(e.crec.seq) % 3 == 1:
                 # a sequence-verified clone: per-letter qualities travel with the record
                 rec.letter_annotations["phred_quality"] = [20 + (i * 7) % 21 for i in range(len(e.crec.seq))]
